@@ -151,13 +151,13 @@ Definition plain_evs (evs : list event) : Prop :=
 
 (* select_task is a composition of: replacing the dispatcher state, emitting plain reports,
    _handle_task_error *)
-Lemma select_task_pres (P : rstate -> Prop) :
-  (forall r d, P r -> P (with_d r d)) ->
+Lemma select_task_pres (P : rstate -> Prop) (k : name) :
+  (forall r s, P r -> P (with_d r (set_status tasks (r_d r) k s))) ->
   (forall r evs, P r -> plain_evs evs -> P (emit r evs)) ->
-  (forall r k kd, P r -> P (handle_error tasks continue_ r k kd)) ->
-  forall r k b r1, P r -> select_task tasks continue_ always r k = (b, r1) -> P r1.
+  (forall r kd, P r -> P (handle_error tasks continue_ r k kd)) ->
+  forall r b r1, P r -> select_task tasks continue_ always r k = (b, r1) -> P r1.
 Proof.
-  intros Pd Pe Ph r k b r1 H E. unfold select_task in E.
+  intros Pd Pe Ph r b r1 H E. unfold select_task in E.
   assert (Hga : forall r0 b0 r2, P r0 -> get_args tasks continue_ r0 k = (b0, r2) -> P r2).
   { intros r0 b0 r2 H0 Q. unfold get_args in Q. destruct (t_argerr (get_task k)); inversion Q; subst; auto. }
   assert (He : P (emit r [EGetStatus k])) by (apply Pe; auto; repeat split; reflexivity).
@@ -171,7 +171,7 @@ Proof.
   destruct (n_st (node_of tasks (r_d r) k)); try (apply Hlater; exact E).
   clear Hlater.
   destruct (negb (is_nil (n_ign (node_of tasks (r_d r) k))) || t_dbignore (get_task k)).
-  { inversion E; subst. apply Pe; [apply Pd; auto|repeat split; reflexivity]. }
+  { inversion E; subst. apply Pe; [apply (Pd (emit r [EGetStatus k])); auto|repeat split; reflexivity]. }
   destruct (negb (is_nil (n_bad (node_of tasks (r_d r) k)))).
   { inversion E; subst. apply Ph; auto. }
   assert (Hrun : forall st,
@@ -179,30 +179,51 @@ Proof.
       then get_args tasks continue_ (with_d (emit r [EGetStatus k]) (set_status tasks (r_d (emit r [EGetStatus k])) k st)) k
       else (false, with_d (emit r [EGetStatus k]) (set_status tasks (r_d (emit r [EGetStatus k])) k st))) = (b, r1) -> P r1).
   { intros st Q. destruct (is_nil (t_setup (get_task k))).
-    - eapply Hga; [|exact Q]. apply Pd; auto.
-    - inversion Q; subst. apply Pd; auto. }
+    - eapply Hga; [|exact Q]. apply (Pd (emit r [EGetStatus k])); auto.
+    - inversion Q; subst. apply (Pd (emit r [EGetStatus k])); auto. }
   destruct (t_check (get_task k)).
   - destruct always; cbv beta iota zeta in E; apply (Hrun SRun); exact E.
   - destruct always; cbv beta iota zeta in E; [apply (Hrun SRun); exact E|].
-    inversion E; subst. apply Pe; [apply Pd; auto|repeat split; reflexivity].
+    inversion E; subst. apply Pe; [apply (Pd (emit r [EGetStatus k])); auto|repeat split; reflexivity].
   - inversion E; subst. apply Ph; auto.
 Qed.
 
 Lemma TInv_select r k b r1 : TInv r -> select_task tasks continue_ always r k = (b, r1) -> TInv r1.
 Proof.
-  apply (select_task_pres TInv).
-  - apply TInv_with_d.
+  apply (select_task_pres TInv k).
+  - intros r0 s H. apply TInv_with_d. exact H.
   - intros r0 evs H (A & B & C). apply TInv_emit_plain; auto.
-  - intros r0 k0 kd H. apply TInv_handle_error; auto.
+  - intros r0 kd H. apply TInv_handle_error; auto.
 Qed.
 
 (* select_task never reports an execution *)
 Lemma select_task_execs r k b r1 :
   select_task tasks continue_ always r k = (b, r1) -> execs (r_tr r1) = execs (r_tr r).
 Proof.
-  intros E. apply (select_task_pres (fun r0 => execs (r_tr r0) = execs (r_tr r))) with (r := r) (k := k) (b := b); auto.
+  intros E. apply (select_task_pres (fun r0 => execs (r_tr r0) = execs (r_tr r)) k) with (r := r) (b := b); auto.
   - intros r0 evs H (A & B & C). unfold emit. simpl. rewrite execs_app, C, app_nil_r. exact H.
-  - intros r0 k0 kd H. unfold handle_error, handle_error_gen. simpl. rewrite execs_app. simpl. rewrite app_nil_r. exact H.
+  - intros r0 kd H. unfold handle_error, handle_error_gen. simpl. rewrite execs_app. simpl. rewrite app_nil_r. exact H.
+Qed.
+
+(* select_task only appends to the trace, and only touches the status of the task it is given *)
+Lemma select_task_ext r k b r1 :
+  select_task tasks continue_ always r k = (b, r1) ->
+  (exists evs, r_tr r1 = r_tr r ++ evs) /\
+  (forall x, x <> k -> st_of tasks (r_d r1) x = st_of tasks (r_d r) x).
+Proof.
+  intros E.
+  apply (select_task_pres (fun r0 => (exists evs, r_tr r0 = r_tr r ++ evs) /\
+                                      (forall x, x <> k -> st_of tasks (r_d r0) x = st_of tasks (r_d r) x)) k)
+    with (r := r) (b := b); auto.
+  - intros r0 s [[evs A] B]. split; [exists evs; exact A|].
+    intros x Hx. simpl. unfold set_status. unfold st_of at 1. unfold node_of.
+    unfold set_node. simpl. unfold upd. apply N.eqb_neq in Hx. rewrite Hx. apply B. apply N.eqb_neq. exact Hx.
+  - intros r0 evs [[e0 A] B] _. split; [|exact B]. unfold emit. simpl. rewrite A. exists (e0 ++ evs). rewrite app_assoc. reflexivity.
+  - intros r0 kd [[e0 A] B]. unfold handle_error, handle_error_gen. simpl. split.
+    + rewrite A. eexists. rewrite <- app_assoc. reflexivity.
+    + intros x Hx. unfold set_status. unfold st_of at 1. unfold node_of.
+      unfold set_node. simpl. unfold upd. apply N.eqb_neq in Hx. rewrite Hx. apply B. apply N.eqb_neq. exact Hx.
+  - split; [exists []; rewrite app_nil_r; reflexivity|auto].
 Qed.
 
 Lemma TInv_start r k : TInv r -> TInv (start_task tasks r k).
